@@ -71,9 +71,11 @@ def main(argv):
         return 2
     wall = time.time() - t0
     ctx.assumptions = list(getattr(mod, "ASSUMPTIONS", []))
-    core.write_evidence(ctx, getattr(mod, "LEVEL", "other"), seed, wall, viol, kf,
-                        getattr(mod, "EXPLANATION", ""), list(getattr(mod, "TRUSTED", [])),
-                        extra=getattr(ctx, "extra", None))
+    scratch = bool(os.environ.get("VERIF_NO_EVIDENCE"))
+    if not scratch:
+        core.write_evidence(ctx, getattr(mod, "LEVEL", "other"), seed, wall, viol, kf,
+                            getattr(mod, "EXPLANATION", ""), list(getattr(mod, "TRUSTED", [])),
+                            extra=getattr(ctx, "extra", None))
     n_ok = sum(1 for o in ctx.obligations if o.ok)
     print("%s: %d obligations, %d discharged, %d known finding(s), %d violation(s); analysed %s; %.2fs"
           % (prop, len(ctx.obligations), n_ok, len(kf), len(viol),
@@ -81,7 +83,7 @@ def main(argv):
     for o in kf:
         print("KNOWN-FINDING: property=%s %s %s -- %s [%s]" % (prop, o.rule, o.key, o.msg, o.where))
     if viol:
-        path = core.write_report(ctx, viol)
+        path = os.path.join(core.VERIF, "out", "%s.report.json" % prop) if scratch else core.write_report(ctx, viol)
         for o in viol:
             print("  FAIL %s %s\n       at %s\n       %s" % (o.rule, o.key, o.where, o.msg))
         print("VIOLATION property=%s replay=%s" % (prop, os.path.relpath(path, core.VERIF)))
